@@ -28,6 +28,7 @@ import LiquerModel.Conc
 import LiquerProofs.Inst.Vocab
 import LiquerProofs.Lemmas.ConcO4
 import LiquerProofs.Lemmas.ConcO5
+import LiquerProofs.Lemmas.ConcO6
 import LiquerProofs.Lemmas.EvalCor
 import LiquerProofs.Lemmas.EvalExample
 
@@ -214,6 +215,19 @@ theorem metadata_only_is_miss (w : World) (k status : Str) (h : w.dataAt k = non
   | none => rfl
   | some s => rw [World.dataAt_storeMeta hd] at h; simp at h
 
+/-- A thread that is never pre-empted is the sequential evaluation: fed exactly the answers the cache gives in order, the
+oracle evaluator returns `evalQ`'s outcome, logs `evalQ`'s calls, consumes all answers without starving, and replaying its
+trace on the cache (`applyOp` folded over it) gives `evalQ`'s final cache and those answers. -/
+theorem evalQO_agrees (env : Env) (n : Nat) (w : World) (q : Query) (raw : Str) :
+    ∃ A : List (Option EState),
+      (evalQO env n { answers := A } q raw .none none true).2 = (evalQ env n w q raw .none none true).2 ∧
+      (evalQO env n { answers := A } q raw .none none true).1.starved = false ∧
+      (evalQO env n { answers := A } q raw .none none true).1.answers = [] ∧
+      (evalQ env n w q raw .none none true).1.calls = w.calls ++ (evalQO env n { answers := A } q raw .none none true).1.calls ∧
+      (evalQO env n { answers := A } q raw .none none true).1.trace.foldl applyOp (w, []) =
+        ({ (evalQ env n w q raw .none none true).1 with calls := w.calls }, A) :=
+  Liquer.evalQO_agrees env n w q raw .none none true
+
 /-! ### non-vacuity -/
 
 open Ex in
@@ -251,6 +265,17 @@ example :
     ((c.shared.get (s "one/add-2")).map (·.data)) = some (.int 3) := by
   decide +kernel
 
+-- a thread that runs alone (never pre-empted) is the sequential evaluation: same observation, same cache contents, same calls
+open Ex in
+example :
+    let c := finishAll env0 20 (startAll env0 { shared := {}, threads := [{ q := qOneAdd, raw := s "one/add-2" }] })
+    let r := evalQ env0 (evalFuel (s "one/add-2")) {} qOneAdd (s "one/add-2") .none none true
+    (c.threads.map (fun t => (t.result.bind (·.obs)).map (·.value))) = [r.2.obs.map (·.value)] ∧
+    (c.threads.map (·.calls)) = [r.1.calls] ∧
+    (c.shared.cache.map (fun e => (e.1, e.2.status, e.2.st.map (·.data)))) =
+      (r.1.cache.map (fun e => (e.1, e.2.status, e.2.st.map (·.data)))) := by
+  decide +kernel
+
 -- `oracle_refines` is exercised: against two misses the run of `one/add-2` does not starve, its answers are (trivially) good,
 -- and it returns 3
 open Ex in
@@ -276,4 +301,4 @@ example : Sound env0 (finishAll env0 20 (runSchedule env0 (startAll env0 cfg0) [
 
 end Liquer.C12
 
--- OBLIGATIONS: Liquer.C12.inst_registry Liquer.C12.good_answer Liquer.C12.oracle_refines Liquer.C12.oracle_frame Liquer.C12.answers_extend_trace Liquer.C12.apply_op_sound Liquer.C12.meta_remove_harmless Liquer.C12.recorded_answer_good Liquer.C12.inv_iff Liquer.C12.fresh_inv Liquer.C12.step_preserves_inv Liquer.C12.start_preserves_inv Liquer.C12.reach_preserves_inv Liquer.C12.schedule_preserves_inv Liquer.C12.schedule_reach Liquer.C12.cache_sound_every_schedule Liquer.C12.cache_values_fresh Liquer.C12.result_is_solo Liquer.C12.result_is_sequential Liquer.C12.same_query_same_result Liquer.C12.answers_are_finished Liquer.C12.never_serves_unfinished Liquer.C12.metadata_only_is_miss
+-- OBLIGATIONS: Liquer.C12.inst_registry Liquer.C12.good_answer Liquer.C12.oracle_refines Liquer.C12.oracle_frame Liquer.C12.answers_extend_trace Liquer.C12.apply_op_sound Liquer.C12.meta_remove_harmless Liquer.C12.recorded_answer_good Liquer.C12.inv_iff Liquer.C12.fresh_inv Liquer.C12.step_preserves_inv Liquer.C12.start_preserves_inv Liquer.C12.reach_preserves_inv Liquer.C12.schedule_preserves_inv Liquer.C12.schedule_reach Liquer.C12.cache_sound_every_schedule Liquer.C12.cache_values_fresh Liquer.C12.result_is_solo Liquer.C12.result_is_sequential Liquer.C12.same_query_same_result Liquer.C12.answers_are_finished Liquer.C12.never_serves_unfinished Liquer.C12.metadata_only_is_miss Liquer.C12.evalQO_agrees
